@@ -264,6 +264,52 @@ func TestVsim(t *testing.T) {
 					seed += *flagStride
 					continue
 				}
+				if runParams["crash_sweep"] != 0 {
+					// systematic leg: every crash kind x side x wire event of this seed's fault-free pass
+					nEv, _ := r1.Extra["wire_events"].(int)
+					cells, bad := 0, false
+					for kind := 0; kind < 7 && !bad; kind++ {
+						for side := 0; side < 2 && !bad; side++ {
+							for ev := 0; ev <= nEv && !bad; ev++ {
+								vsimProgress.Add(1)
+								p := copyParams(params)
+								p["crash_kind"], p["crash_side"], p["crash_ev"] = kind, side, ev
+								cryptotest.SetGlobalRandom(t, seed)
+								res := runOne(t, sc, runOpts{seed: seed, prop: *flagProp, params: copyParams(p)})
+								res.Params = p
+								if res.Violation != nil {
+									cryptotest.SetGlobalRandom(t, seed)
+									res2 := runOne(t, sc, runOpts{seed: seed, prop: *flagProp, keepTapes: true, params: copyParams(p)})
+									res.Tapes, res.Config = res2.Tapes, res2.Config
+								} else {
+									res.Config = nil
+								}
+								if res.Extra == nil {
+									res.Extra = map[string]any{}
+								}
+								res.Extra["sweep_cell"] = 1
+								res.Extra["sweep_space_base"] = 14 * (nEv + 1)
+								cells++
+								_ = enc.Encode(res)
+								if res.Violation != nil && *flagStop && ownsViolation(res.Violation.Prop) {
+									bad = true
+								}
+								if res.Leak != "" {
+									if f, ok := out.(*os.File); ok {
+										_ = f.Sync()
+									}
+									os.Exit(4)
+								}
+							}
+						}
+					}
+					fmt.Fprintf(os.Stderr, "VSIM-SWEEP seed=%d cells=%d space=%d\n", seed, cells, 14*(nEv+1))
+					if bad {
+						break
+					}
+					seed += *flagStride
+					continue
+				}
 				for k, v := range derive(seed, r1) {
 					runParams[k] = v
 				}
